@@ -421,7 +421,8 @@ def shifted(items, d):
 def describe(items, n, run=None):
     """Descriptor-level facts about the user's specification (readability of replay records only)."""
     return {"kinds": [it["kind"] for it in items], "forms": [it["form"] for it in items],
-            "dict_falsy_value": any(it["form"] == "dict" and 0 in it["pars"] for it in items)}
+            "dict_falsy_value": any(it["form"] == "dict" and 0 in it["pars"] for it in items),
+            "scale": run.get("scale", 0) if run else 0}
 
 
 def has_hard_request(c):
@@ -553,8 +554,8 @@ def run(chk, opts):
                 if not (pr["dtype"] == "float32" and pr["scale"] not in (0, -30)):
                     break
             k = len(cases)
-            cases.append({"id": "C11/prox/%06d" % k, "op": "prox", "n": c["n"], "items": c["items"], "run": pr,
-                          "seed": (chk.seed * 1000003 + k * 104729 + 5) % (2**31)})
+            cases.append(dict({"id": "C11/prox/%06d" % k, "op": "prox", "n": c["n"], "items": c["items"], "run": pr,
+                               "seed": (chk.seed * 1000003 + k * 104729 + 5) % (2**31)}, **describe(c["items"], c["n"], pr)))
     nprox = len(cases) - nmap - nrun
     # ---- sequences: same keywords / modes, different parameters, back to back in one process
     nseq = int(opts.get("seqs", 0)) or (3000 if thorough else 500)
